@@ -540,6 +540,16 @@ class StartStageHandler(
 
                 for msg in messages_to_push:
                     txn.push_message(msg)
+
+                # Record event if event recorder is configured - inside the
+                # transaction, so that stage.started can never be appended
+                # after the stage's completion event by a slower worker.
+                if self.event_recorder:
+                    self.set_event_context(stage.execution.id if stage.execution else "")
+                    self.event_recorder.record_stage_started(
+                        stage,
+                        source_handler="StartStageHandler",
+                    )
         except ConcurrencyError:
             # This shouldn't happen since we already claimed the stage,
             # but handle it gracefully just in case.
@@ -550,11 +560,3 @@ class StartStageHandler(
             return
 
         logger.info("Started stage %s (%s)", stage.name, stage.id)
-
-        # Record event if event recorder is configured
-        if self.event_recorder:
-            self.set_event_context(stage.execution.id if stage.execution else "")
-            self.event_recorder.record_stage_started(
-                stage,
-                source_handler="StartStageHandler",
-            )
